@@ -488,29 +488,6 @@ func c16Global(c *Case) {
 		opDigestValue(ce, d.Nodes[g.Intn(len(d.Nodes))])
 	}
 	xpath.RegexpCache = custom
-	// a loader may refuse a pattern with an error of its own (a policy, a wrapped error): a CONSTANT pattern the
-	// loader refuses is rejected by Compile, whatever the type of the error
-	refusing := xpath.NewLoadingCache(func(key interface{}) (interface{}, error) {
-		if strings.Contains(key.(string), "b") {
-			return nil, fmt.Errorf("pattern policy: %q not allowed", key)
-		}
-		return regexp.Compile(key.(string))
-	}, capacity)
-	xpath.RegexpCache = refusing
-	for _, src := range []string{"matches(., 'abc')", "//*[matches(@id, 'b+')]", "count(//a[matches(., '^b')]) > 0"} {
-		if ce, err := safeCompile(src); err == nil && ce != nil {
-			c.Violation("CONSTANT-PATTERN-REFUSED-BY-THE-LOADER-ACCEPTED", map[string]interface{}{"expr": src, "loader": "returns a non-syntax error for patterns containing 'b'"})
-			xpath.RegexpCache = saved
-			return
-		}
-		c.Count("regex:invalid-constant-rejected")
-	}
-	if _, err := safeCompile("matches(., 'a+c')"); err != nil {
-		c.Violation("VALID-PATTERN-REJECTED", map[string]interface{}{"expr": "matches(., 'a+c')", "error": err.Error()})
-		xpath.RegexpCache = saved
-		return
-	}
-	xpath.RegexpCache = custom
 	// right after the swap, the pattern used LAST through the old cache is used first: nothing remembered
 	// outside the cache may answer for it
 	for k := len(exprs) - 1; k >= 0; k-- {
@@ -566,6 +543,29 @@ func c16Global(c *Case) {
 		c.Violation("DATA-RACE", map[string]interface{}{"report": blocks[0], "entry_points": raceSignature(blocks[0])})
 		return
 	}
+	// a loader may refuse a pattern with an error of its own (a policy, a wrapped error): a CONSTANT pattern the
+	// loader refuses is rejected by Compile, whatever the type of the error
+	refusing := xpath.NewLoadingCache(func(key interface{}) (interface{}, error) {
+		if strings.Contains(key.(string), "b") {
+			return nil, fmt.Errorf("pattern policy: %q not allowed", key)
+		}
+		return regexp.Compile(key.(string))
+	}, capacity)
+	xpath.RegexpCache = refusing
+	for _, src := range []string{"matches(., 'abc')", "//*[matches(@id, 'b+')]", "count(//a[matches(., '^b')]) > 0"} {
+		if ce, err := safeCompile(src); err == nil && ce != nil {
+			c.Violation("CONSTANT-PATTERN-REFUSED-BY-THE-LOADER-ACCEPTED", map[string]interface{}{"expr": src, "loader": "returns a non-syntax error for patterns containing 'b'"})
+			xpath.RegexpCache = saved
+			return
+		}
+		c.Count("regex:invalid-constant-rejected")
+	}
+	if _, err := safeCompile("matches(., 'a+c')"); err != nil {
+		c.Violation("VALID-PATTERN-REJECTED", map[string]interface{}{"expr": "matches(., 'a+c')", "error": err.Error()})
+		xpath.RegexpCache = saved
+		return
+	}
+	xpath.RegexpCache = custom
 	if atomic.LoadInt64(&loads) > int64(len(pats)) {
 		c.Nontrivial(fmt.Sprintf("global|%d|%v", capacity, pats))
 	}
